@@ -49,5 +49,5 @@ replace verif.local/simrt => ../simrt
 E2
 if [ -n "$DEPS" ]; then printf '\nreplace github.com/expr-lang/expr => ../exprlang\n' >> "$S/sim/go.mod"; fi
 cp "$REPO/go.sum" "$S/sim/go.sum" 2>/dev/null || true
-(cd "$S/sim" && $GO test -overlay "$VBUILD/overlay/overlay.json" -c -o "$S/sim.test" . ) > "$S/build.log" 2>&1 || { cat "$S/build.log" >&2; fail "go test -c"; }
+(cd "$S/sim" && $GO test -trimpath -overlay "$VBUILD/overlay/overlay.json" -c -o "$S/sim.test" . ) > "$S/build.log" 2>&1 || { cat "$S/build.log" >&2; fail "go test -c"; }
 tail -1 "$S/instr.log"
